@@ -110,8 +110,9 @@ def generalise(obj, u=None):
 
 def restore(obj, via):
     jax = lib()["jax"]
-    if ref.kind_of(obj) == "trunc":
-        return None
+    from .model import APPROX
+    if ref.kind_of(obj) == "trunc" or type(obj).__name__ in APPROX:
+        return None  # pytree / dict round trips are promised for factors, measures, densities, linear conditionals
     if via == "dict":
         if not hasattr(obj, "to_dict"):
             return None
